@@ -155,6 +155,10 @@ def _write_cog(
         ),
     }
     if nodata is not None:
+        if pix.dtype.kind == "f" and not isinstance(nodata, str):
+            # value as stored in pixels: GDAL tags the image and its overviews with
+            # different roundings of a value that is not representable in pixel type
+            nodata = float(pix.dtype.type(nodata))
         rio_opts.update(nodata=nodata)
 
     rio_opts.update(extra_rio_opts)
